@@ -168,6 +168,24 @@ def block_options(e, doc, loc, sels):
     return set(opts)
 
 
+def block_permitted(e, doc, loc, sels, items):
+    """Is `items` (locations) a permitted result of the selectors `sels` applied to the node at loc?  Decided
+    selector by selector without enumerating the permutations (objects may have hundreds of members)."""
+    v = value_at(doc, loc)
+    items = list(items)
+    at = 0
+    for sel in sels:
+        base = [l for l, _ in e.selector(sel, loc, v, doc)]
+        part = items[at:at + len(base)]
+        at += len(base)
+        if sel[0] in ("wild", "filter") and isinstance(v, dict):
+            if sorted(map(repr, part)) != sorted(map(repr, base)):
+                return False
+        elif part != base:
+            return False
+    return at == len(items)
+
+
 def visit_orders(doc, loc):
     """All orders in which the containers at/below loc may be visited (parents first, arrays in index order)."""
     root = value_at(doc, loc)
@@ -250,6 +268,8 @@ def pair_orders(seqs):
 
 # ---------------------------------------------------------------- oracle
 def examine(case):
+    if case.get("kind") == "interleaved":
+        return examine_interleaved(case)
     q, ast, doc = case["q"], case["ast"], case["doc"]
     if case.get("kind") == "sampled":
         return examine_sampled(case)
@@ -308,6 +328,60 @@ def examine_sampled(case):
     return None
 
 
+def examine_interleaved(case):
+    """One compiled query of the nondeterministic environment, several live result iterators (over the same or
+    different values) advanced in turns: each iterator's own result must be a permitted one for its value."""
+    q, ast, docs = case["q"], case["ast"], case["docs"]
+    env = nd_env()
+    state = _random.getstate()
+    try:
+        _random.seed(case["seed"])
+        st, cq = lib.compile_(q, env)
+        if st != "ok":
+            return fail(f"raised:{cq['type']}:interleaved", f"{q!r} does not compile: {cq['str']}", None, cq)
+        its = [iter(cq.finditer(docs[d])) for d in case["assign"]]
+        got = [[] for _ in its]
+        live = [True] * len(its)
+        for i in case["schedule"] + list(range(len(its))) * 100000:
+            if not any(live):
+                break
+            if not live[i]:
+                continue
+            try:
+                node = next(its[i])
+            except StopIteration:
+                live[i] = False
+                continue
+            except Exception as e:  # noqa: BLE001
+                info = lib.exc_info(e)
+                return fail(f"raised:{info['type']}:interleaved", f"{q!r}: next() on iterator {i} raised {info['type']}: {info['str']}", None, info)
+            doc = docs[case["assign"][i]]
+            try:
+                same = value_at(doc, tuple(node.location)) is node.value
+            except (KeyError, IndexError, TypeError):
+                same = False
+            if not same:
+                return fail("invalid-nodes:interleaved", f"{q!r}: iterator {i} yielded a node at {list(node.location)} that is not a node of its own value "
+                            f"(other iterators of the same compiled query are live)", None, list(node.location))
+            got[i].append(tuple(node.location))
+            if len(got[i]) > 100000:
+                return fail("invalid-nodes:interleaved", f"{q!r}: iterator {i} does not end", None, None)
+        for i, locs in enumerate(got):
+            doc = docs[case["assign"][i]]
+            det = [l for l, _ in ev.find(ast, doc)]
+            if sorted(map(repr, locs)) != sorted(map(repr, det)):
+                return fail("invalid-nodes:interleaved", f"{q!r}: with {len(its)} live iterators of one compiled query, iterator {i} "
+                            f"gives other nodes than the deterministic result", [list(l) for l in det[:8]], [list(l) for l in locs[:8]])
+            if len(ast[2]) == 1:
+                f = check_single_segment(ast[2][0], doc, locs, q, case["seed"])
+                if f:
+                    f["bucket"] = f["bucket"].replace(":sampled", ":interleaved")
+                    return f
+    finally:
+        _random.setstate(state)
+    return None
+
+
 def check_single_segment(seg, doc, locs, q, s):
     """Blocks per visited parent are contiguous, parents come before descendants, arrays keep index order."""
     e = ev.Evaluator()
@@ -322,7 +396,7 @@ def check_single_segment(seg, doc, locs, q, s):
     if len(set(parents)) != len(parents):
         return fail("invalid-order:sampled", f"{q!r} seed {s}: the selector results of one visited node are not contiguous", None, [list(l) for l in locs[:12]])
     for p, items in runs:
-        if tuple(items) not in block_options(e, doc, p, seg[1]):
+        if not block_permitted(e, doc, p, seg[1], items):
             return fail("invalid-order:sampled", f"{q!r} seed {s}: the block for node {list(p)} is not a permitted selector result", None, [list(l) for l in items])
     for i, a in enumerate(parents):
         for b in parents[i + 1:]:
@@ -447,9 +521,26 @@ def run_shard(spec, shard):
 
     drive(rng(), spec["sampled"], spec["seed"] + 3, sbody)
 
+    def ibody(r):
+        docs = [diff.make_doc(r, "quick", names=["a", "b", "c"], falsy_bias=0.1) for _ in range(2)]
+        ast, text = gen_query(r, shard, docs[0], nseg_max=r.choice([1, 1, 2, 3]))
+        k = r.choice([2, 2, 3])
+        assign = [r.randrange(2) for _ in range(k)]
+        case = {"kind": "interleaved", "q": text, "ast": ast, "docs": docs, "assign": assign,
+                "schedule": [r.randrange(k) for _ in range(r.choice([0, 5, 40, 200]))], "seed": r.randrange(10**9)}
+        feats = Q.features(ast)
+        shard.case(key=(text, docs, assign, case["schedule"]), nontrivial="descendant" in feats or "wild" in feats or "filter" in feats,
+                   classes={"interleaved-iterators-of-one-compiled-query"} | ({"interleaved:descendant"} if "descendant" in feats else set()),
+                   sample={"q": text, "iterators": k, "assign": assign})
+        f = examine(case)
+        if f:
+            shard.fail(f["bucket"], case, f)
+
+    drive(rng(), spec["sampled"], spec["seed"] + 5, ibody)
+
 
 def minimise(case, failure, tier):
-    if case.get("kind") == "sampled":
+    if case.get("kind") in ("sampled", "interleaved"):
         return case, failure
     bucket = failure["bucket"]
 
